@@ -83,7 +83,7 @@ def install(R: Registry):
                             "builtin:any": "lemma(implies(not _ret, forall('j:Int', implies(0 <= j and j < len(s.fields), al(pad_len + ptr, s.fields[j].galign)))), 'trailing')"},
                requires=["len(s.fields) > 0", ("C11", "forall('i:Int j:Int', implies(0 <= i and i < j and j < len(s.fields), s.fields[i] != s.fields[j]))", "the field objects of a struct are distinct"), "forall('j:Int', implies(0 <= j and j < len(s.fields), s.fields[j] != null and allocated(s.fields[j]) and s.fields[j].gsize > 0 and va(s.fields[j].galign) and al(s.fields[j].gsize, s.fields[j].galign)))",
                          "forall('j:Int', implies(0 <= j and j < len(s.fields), not is_pad_name(s.fields[j])))" if False else "True"],
-               modifies=["SDF.fields", "SDF.alignment", "Field.*", "glob:gsrc", "glob:gdst"],
+               modifies=["SDF.fields", "SDF.alignment", "SDF.gtotal", "Field.*", "glob:gsrc", "glob:gdst"],
                ensures=[
                    ("C11", "layout_ok(s)", "each field starts at a multiple of its natural alignment, fields are contiguous, the size is a multiple of every member alignment: no hidden padding"),
                    ("C11", "s.alignment == 1 or s.alignment == 2 or s.alignment == 4 or s.alignment == 8"),
@@ -108,4 +108,70 @@ def install(R: Registry):
                           "forall('j:Int', implies(0 <= j and j < len(s.fields), s.fields[j] != null and s.fields[j].gsize > 0 and va(s.fields[j].galign) and al(s.fields[j].gsize, s.fields[j].galign)))",
                       ])})
 
-PARSER_C11 = [P + "Parser.check_alignment"]
+
+def install2(R: Registry):
+    R.contract(P + "Parser.validate_msg_def", tags="C11", params=dict(mdf="SDF"),
+               requires=["forall('j:Int', implies(0 <= j and j < len(mdf.fields), mdf.fields[j] != null and allocated(mdf.fields[j]) and mdf.fields[j].gsize > 0 and va(mdf.fields[j].galign) and al(mdf.fields[j].gsize, mdf.fields[j].galign)))",
+                         "forall('i:Int j:Int', implies(0 <= i and i < j and j < len(mdf.fields), mdf.fields[i] != mdf.fields[j]))", "len(mdf.fields) >= 0"],
+               modifies=["SDF.fields", "SDF.alignment", "SDF.gtotal", "Field.*", "glob:gsrc", "glob:gdst"],
+               ensures=[("C11", "mdf.gtotal <= 65535", "definitions larger than 65535 bytes are rejected"),
+                        ("C11", "implies(self.validate_alignment, layout_ok(mdf))", "an accepted definition has the natural, fully explicit layout")],
+               raises={"InvalidMessageSize": [("C11", "mdf.gtotal > 65535")], "AlignmentError": [("C11", "not self.auto_pad and self.validate_alignment")],
+                       "AssertionError": [("C11", "len(old(mdf.fields)) == 0", "a definition without fields is refused")]})
+
+
+PARSER_C11 = [P + "Parser.check_alignment", P + "Parser.validate_msg_def"]
+
+
+def install3(R: Registry):
+    """C12: id / name conflicts are always detected and never invented (registry handlers)"""
+    R.declare_class("PathObj", external=True, fields=dict(name="Str"))
+    for cname in ("HID", "MID", "MT"):
+        d = R.declare_class(cname, fields=dict(name="Str", value="Int", src="PathObj"))
+        d.dataclass = True
+    pc = R.classes["Parser"]
+    from pyvc.core import parse_type
+    pc.fields.update(dict(host_ids=parse_type("Dict[Str, HID]"), module_ids=parse_type("Dict[Str, MID]"), message_ids=parse_type("Dict[Str, MT]"),
+                          current_file=parse_type("PathObj"), import_coredefs=parse_type("Bool")))
+    R.external("Parser.check_name", params=dict(self="Parser", name="Str"), pure=True, ensures=[], raises={"RTMASyntaxError": []},
+               doc="lexical check of an identifier (regex); raises RTMASyntaxError for an invalid name")
+    R.external("PathObj.absolute", params=dict(self="PathObj"), returns="PathObj", pure=True, ensures=[])
+    R.external("Parser.trim_root", params=dict(self="Parser", p="PathObj"), returns="PathObj", pure=True, ensures=["result != null"])
+    R.mark_inline(P + "Parser.check_duplicate_name")
+
+    def reg(field, cls):
+        R.define(f"reg_{field}", "p: Parser",
+                 f"forall('k:Str', implies(dom(p.{field})[k], p.{field}[k] != null and p.{field}[k].name == k)) and "
+                 f"forall('a:Str b:Str', implies(dom(p.{field})[a] and dom(p.{field})[b] and a != b, p.{field}[a].value != p.{field}[b].value))",
+                 f"{field}: every entry is stored under its own name and no two entries share an id")
+        R.define(f"idclash_{field}", "p: Parser, v: Int", f"exists('k:Str', dom(p.{field})[k] and p.{field}[k].value == v)")
+        R.define(f"nameclash_{field}", "p: Parser, n: Str", f"exists('k:Str', dom(p.{field})[k] and p.{field}[k].name == n)")
+    reg("host_ids", "HID"); reg("module_ids", "MID"); reg("message_ids", "MT")
+
+    def handler(fn, field, cls, err, bad_range):
+        others = [f for f in ("host_ids", "module_ids", "message_ids") if f != field]
+        R.contract(P + f"Parser.{fn}", tags="C12", params=dict(name="Str", value="Int"),
+                   requires=[f"reg_{field}(self)", "self.current_file != null"],
+                   modifies=[f"Parser.{field}", f"{cls}.*"],
+                   ensures=[("C12", f"reg_{field}(self)", "the registry stays injective"),
+                            ("C12", f"not old(idclash_{field}(self, value)) and not old(nameclash_{field}(self, name))", "accepted only when there is no conflict: a conflict is always detected"),
+                            ("C12", f"dom(self.{field})[name] and self.{field}[name].value == value and self.{field}[name].name == name and "
+                                    f"forall('k:Str', implies(k != name, dom(self.{field})[k] == old(dom(self.{field})[k]) and self.{field}[k] == old(self.{field}[k])))",
+                             "exactly the new item is registered"),
+                            ("C12", f"implies(self.import_coredefs and self.current_file.name != 'core_defs.yaml', not ({bad_range}))", "ids outside the permitted range are refused")],
+                   raises={
+                       "DuplicateNameError": [("C12", f"old(nameclash_{field}(self, name))", "a name conflict is reported only when there is one"), ("C12", f"self.{field} == old(self.{field})")],
+                       err: [("C12", f"old(idclash_{field}(self, value))", "an id conflict is reported only when there is one"), ("C12", f"self.{field} == old(self.{field})")],
+                       "RTMASyntaxError": [("C12", f"self.{field} == old(self.{field})")],
+                       "InvalidTypeError": [("C12", "False")],
+                   })
+    handler("handle_host_id", "host_ids", "HID", "HostIDError", "value < 1 or value > 32767")
+    handler("handle_module_id", "module_ids", "MID", "ModuleIDError", "(value < 10 or (99 < value and value < 200)) and value != 0")
+    R.contract(P + "Parser.validate_msg_id", tags="C12", params=dict(name="Str", msg_id="Int"),
+               requires=["reg_message_ids(self)"], modifies=[],
+               ensures=[("C12", "not idclash_message_ids(self, msg_id) and 0 <= msg_id and msg_id <= 10000", "a message id is accepted only if it is in range and not used by any message, signal or reserved id")],
+               raises={"MessageIDError": [("C12", "idclash_message_ids(self, msg_id)", "a conflict is reported only when there is one")],
+                       "RTMASyntaxError": [("C12", "msg_id < 0 or msg_id > 10000")], "InvalidTypeError": [("C12", "False")]})
+
+
+PARSER_C12 = [P + "Parser.handle_host_id", P + "Parser.handle_module_id", P + "Parser.validate_msg_id"]
